@@ -289,6 +289,17 @@ DIGIT_Q = [alg("MC_DigitAlgs.tla", "MC_DigitAlgs_2_3.cfg"), alg("MC_DigitAlgs.tl
 DIGIT_T = DIGIT_Q + [alg("MC_DigitAlgs.tla", "MC_DigitAlgs_1_5.cfg"), alg("MC_DigitAlgs.tla", "MC_DigitAlgs_2_4.cfg", workers=10), alg("MC_DigitAlgs.tla", "MC_DigitAlgs_4_2.cfg", workers=10)]
 for _p in ("C01", "C02", "C06", "C07"):
     PROPS[_p]["mc"] = {"quick": list(DIGIT_Q), "thorough": list(DIGIT_T)}
+# Apalache (SMT): the carry / borrow / comparison loops at the REAL digit bases (2^8 .. 2^64), every digit value, N = 1..4
+def apa(inv, cinit="CInit", **kw):
+    d = {"tool": "apalache", "module": "ApaDigits.tla", "inv": inv, "cinit": cinit, "timeout": 3000}
+    d.update(kw)
+    return d
+
+
+PROPS["C01"]["mc"]["quick"] = PROPS["C01"]["mc"]["quick"] + [apa("UAddSubOK"), apa("UAddOK", "CInitMut", expect_violation=True)]
+PROPS["C01"]["mc"]["thorough"] = PROPS["C01"]["mc"]["thorough"] + [apa("AlgsOK"), apa("UAddOK", "CInitMut", expect_violation=True)]
+PROPS["C07"]["mc"]["quick"] = PROPS["C07"]["mc"]["quick"] + [apa("CmpOK")]
+PROPS["C07"]["mc"]["thorough"] = PROPS["C07"]["mc"]["thorough"] + [apa("CmpOK")]
 # the pinned tree's rotation amount mask (n & (BITS-1)) is refuted at a non-power-of-two width and holds at a power of two
 PROPS["C05"]["mc"] = {
     "quick": DIGIT_Q + [alg("MC_DigitAlgs.tla", "MC_DigitAlgs_mask_2_3.cfg", expect_violation="RotMaskOK")],
@@ -351,6 +362,16 @@ for _p in ("C01", "C02", "C03"):
     PROPS[_p]["mc"]["thorough"] = PROPS[_p]["mc"]["thorough"] + [{"dir": "mc", "module": "MC_L1.tla", "cfg": "MC_L1_b4.cfg", "workers": 4}, {"dir": "mc", "module": "MC_L1.tla", "cfg": "MC_L1_b256.cfg", "workers": 4}]
 for _p in ("C05", "C06", "C08"):
     PROPS[_p]["mc"]["thorough"] = PROPS[_p]["mc"]["thorough"] + [dict(L2MC, cfg="MC_L2_b16.cfg"), dict(L2MC, cfg="MC_L2_b2.cfg")]
+
+# second batch of digit-loop models (alg/MoreAlgs): widening/carrying multiplication, midpoint, short division and the division
+# dispatch, signed multiplication / division wrappers, counting loops, bit/set_bit, reversals, per-digit hex/binary text,
+# TryFrom representability tests -- every input at toy sizes
+MORE_Q = [alg("MC_MoreAlgs.tla", "MC_MoreAlgs_2_3.cfg", workers=8)]
+MORE_T = [alg("MC_MoreAlgs.tla", "MC_MoreAlgs_%s.cfg" % c, workers=10) for c in ("2_3", "3_2", "1_5", "4_2", "2_4")] + \
+         [alg("MC_MoreAlgs.tla", "MC_MoreAlgs_probe_%s.cfg" % v, expect_violation=v, workers=4) for v in ("NoCarryOut", "NoMinProduct", "NoMidFix")]
+for _p in ("C01", "C02", "C03", "C06", "C12", "C13"):
+    PROPS[_p]["mc"]["quick"] = PROPS[_p]["mc"]["quick"] + MORE_Q
+    PROPS[_p]["mc"]["thorough"] = PROPS[_p]["mc"]["thorough"] + (MORE_T if _p in ("C02", "C13") else MORE_Q)
 
 KNOWN_PREDICATES = {}
 
@@ -545,5 +566,28 @@ LEVELS = {
          _T + "MC_Uniform model checking; trace validation of complete histograms"),
 }
 for _k, (_text, _tech) in LEVELS.items():
-    PROPS[_k]["level_text"] = _text + " Exhaustive within the toy constants of the models; boundary-directed and random on the real code (16 widths 8..1024 bits, every digit type): no proof over all widths."
+    PROPS[_k]["level_text"] = _text + (" Exhaustive within the toy constants of the models; boundary-directed and random on the real code "
+        "(22 densely sampled widths 8..1024 bits plus 2080 and 8192, every digit type; and the width sweep: every digit count N = 1..33 of every digit type, "
+        "132 type pairs at 84 widths up to 2112 bits -- the quick tier runs the quarter of the sweep selected by the seed, the thorough tier all of it): no proof over all widths.")
     PROPS[_k]["technique"] = _tech
+_EXTRA = {
+ "C01": " Apalache (spec/apa/ApaDigits) decides the carry/borrow ripple, the signed top digit and the flag xor symbolically for every digit value at the real digit bases 2^8..2^64 and N = 1..4; alg/MoreAlgs checks midpoint and abs_diff for every operand pair at toy sizes.",
+ "C02": " alg/MoreAlgs transcribes widening_mul, carrying_mul and the signed re-signing wrapper and checks hi*2^W+lo = a*b(+c) and the signed flag for every operand pair at toy sizes (the exact-MIN product and the low-half carry are witnessed).",
+ "C03": " alg/MoreAlgs checks the short division by one digit (with its debug assertion), the dispatch in front of Algorithm D and the signed wrapper (no negation overflows outside MIN / -1) for every pair at toy sizes; division steps are replayed inside TLC-simulated machine behaviours.",
+ "C04": " Machine behaviours in both build modes exercise the panicking operators, op-assign and shift-assign forms on real registers (a panicking step must leave the register file unchanged).",
+ "C05": " Shift, rotate and shift-assign steps are replayed inside TLC-simulated machine behaviours.",
+ "C06": " alg/MoreAlgs checks the counting loops with their early exits, is_power_of_two, checked_next_power_of_two, bit/set_bit, swap_bytes and reverse_bits for every value at toy sizes; set_bit acts on real registers in machine behaviours.",
+ "C07": " Apalache decides the MSD-first comparison loops (unsigned and signed top digit) for every digit value at the real digit bases, N = 1..4.",
+ "C08": " Power steps (wrapping, checked, saturating, operator) are replayed inside TLC-simulated machine behaviours.",
+ "C10": " Print-then-parse steps (every radix) are replayed inside TLC-simulated machine behaviours.",
+ "C11": " Print-then-parse and digits-then-parse round trips in every radix 2..256 are steps of TLC-simulated machine behaviours.",
+ "C12": " alg/MoreAlgs checks the per-digit binary/hex text with zero-padded interior digits against the numeral of the value for every value at toy sizes.",
+ "C13": " alg/MoreAlgs transcribes TryFrom<bnum> for primitives (digit wider than, and narrower than, the primitive; signed padding test) and the four BTryFrom bit-count tests and checks them against representability for every value and target width at toy sizes.",
+ "C15": " Decoding the canonical encoding (from_be_slice / from_le_slice) is a step of TLC-simulated machine behaviours.",
+ "C16": " Machine behaviours run on every digit type of the width with identical expected register files.",
+ "C17": " The machine's second generation adds /=, %=, <<=, >>=, Sum/Product by value and by reference over the register file, and unary minus.",
+}
+for _k, _x in _EXTRA.items():
+    PROPS[_k]["level_text"] = PROPS[_k]["level_text"] + _x
+PROPS["C01"]["technique"] += "; Apalache (SMT) on the digit loops at real digit bases"
+PROPS["C07"]["technique"] += "; Apalache (SMT) on the comparison loops at real digit bases"
